@@ -40,7 +40,7 @@ func contains(xs []string, x string) bool {
 // runScript replays one stimulus script under the forced schedule: the next stimulus is applied only when the
 // implementation has nothing left to do for the previous one (every wait is on a hook event).
 func runScript(sc scriptIn) scriptResult {
-	w, err := newWorld(worldOpts{forced: true, hnFail: contains(sc.Stim, "hfail"), preexisting: sc.Pre})
+	w, err := newWorld(worldOpts{forced: true, hnFail: contains(sc.Stim, "hfail"), preexisting: sc.Pre, dseq: uint64(1000 + sc.ID)})
 	if err != nil {
 		if w != nil {
 			w.close()
@@ -89,6 +89,7 @@ func runScript(sc scriptIn) scriptResult {
 			status = "stuck: after " + st + ": " + err.Error()
 			return false
 		}
+		w.observeIfQuiescent()
 		return true
 	}
 	for _, st := range sc.Stim {
@@ -119,9 +120,8 @@ func runScript(sc scriptIn) scriptResult {
 			}
 		}
 	}
-	resv, hn, obs := false, false, false
 	if status == "ok" {
-		resv, hn, obs = w.observe()
+		w.observeFinal()
 	}
 	w.mu.Lock()
 	raws := append([]raw(nil), w.raws...)
@@ -137,7 +137,6 @@ func runScript(sc scriptIn) scriptResult {
 		out = append(out, r)
 	}
 	end := blank("end", "H", 0)
-	end.Resv, end.Hn, end.Obs = resv, hn, obs
 	if status != "ok" {
 		end.E = "stuck"
 		end.Script = status
@@ -152,6 +151,7 @@ func runFree(id int, seed int64) scriptResult {
 	rng := rand.New(rand.NewSource(seed))
 	o := worldOpts{
 		forced:      false,
+		dseq:        uint64(1000 + id),
 		seed:        seed ^ 0x5eed,
 		hnFail:      rng.Intn(8) == 0,
 		preexisting: rng.Intn(5) == 0,
@@ -232,9 +232,8 @@ func runFree(id int, seed int64) scriptResult {
 	}); err != nil {
 		status = "stuck: " + err.Error()
 	}
-	resv, hn, obs := false, false, false
 	if status == "ok" {
-		resv, hn, obs = w.observe()
+		w.observeFinal()
 	}
 	w.mu.Lock()
 	raws := append([]raw(nil), w.raws...)
@@ -245,7 +244,6 @@ func runFree(id int, seed int64) scriptResult {
 	out := []rec{head}
 	out = append(out, recs...)
 	end := blank("end", "H", 0)
-	end.Resv, end.Hn, end.Obs = resv, hn, obs
 	if status != "ok" {
 		end.E = "stuck"
 		end.Script = status
@@ -268,6 +266,7 @@ func Main(args []string) int {
 	rawp := fs.String("raw", "", "also dump raw observations")
 	seed := fs.Int64("seed", 1, "seed (free)")
 	runs := fs.Int("runs", 100, "runs (free)")
+	verbose := fs.Bool("v", false, "print each script id to stderr before running it")
 	if err := fs.Parse(args[1:]); err != nil {
 		return 2
 	}
@@ -333,10 +332,16 @@ func Main(args []string) int {
 			return 2
 		}
 		for _, sc := range scripts {
+			if *verbose {
+				fmt.Fprintln(os.Stderr, "script", sc.ID, sc.Pre, strings.Join(sc.Stim, " "))
+			}
 			emit(sc.ID, runScript(sc))
 		}
 	case "free":
 		for i := 0; i < *runs; i++ {
+			if *verbose {
+				fmt.Fprintln(os.Stderr, "free run", i)
+			}
 			emit(i, runFree(i, *seed*1000003+int64(i)))
 		}
 	default:
